@@ -32,7 +32,7 @@ compares deep snapshots before / after every call.
 import AutomataVerif.Proofs.Instance
 
 namespace AV.Props.C18
-open AV AV.PyVal AV.Obj
+open AV AV.VA AV.VA.PyVal AV.VA.Obj
 
 /-! ## `freeze_value` -/
 
